@@ -52,7 +52,17 @@ def main():
         }
         with open(os.path.join(d, "meta.json"), "w") as f:
             json.dump(meta, f, indent=1)
-        best = results.get("quick", {}).get("caught_by", [])
+        best = []
+        for t_ in sorted(results):  # result_quick.txt (owning/mapped checks) and result_quick2.txt (second pass with another check)
+            for c_ in results[t_].get("caught_by", []):
+                if c_ not in best:
+                    best.append(c_)
+        if sid.startswith("revert"):
+            rr = os.path.join(d, "result.txt")
+            if os.path.exists(rr):
+                m_ = re.search(r"CAUGHT-BY: (\S+)", open(rr).read())
+                if m_ and m_.group(1) != "NONE":
+                    best = m_.group(1).split(",")
         status = open(os.path.join(d, "status.txt")).read().strip() if os.path.exists(os.path.join(d, "status.txt")) else ""
         if status:
             meta["status"] = status
@@ -60,7 +70,14 @@ def main():
             meta["patch_rebased"] = "patch_rebased.diff is patch.diff carried over a later fix: commit that touched the same lines; evaluation uses it"
         with open(os.path.join(d, "meta.json"), "w") as f:
             json.dump(meta, f, indent=1)
-        shown = ",".join(best) or ("n/a (neutralised, see status.txt)" if status else "**missed**")
+        if best:
+            shown = ",".join(best)
+        elif status.startswith("not detected"):
+            shown = "**not detected** (limit, see status.txt)"
+        elif status:
+            shown = "n/a (see status.txt)"
+        else:
+            shown = "**missed**"
         rows.append((sid, ", ".join(os.path.basename(x) for x in files)[:44], title[:110].replace("|", "/"), shown))
     print("| seed | files | change | caught by (quick tier; evaluation stops at the first check that reports) |")
     print("|------|-------|--------|-------------------|")
